@@ -400,9 +400,11 @@ def case_facts(files):
             for c in FG.all_comps(m["comps"]):
                 if c["imp"] and any(k["imp"] or any(x["imp"] for x in FG.all_comps(k["kids"])) for k in c["kids"]):
                     below_placeholder = True
+    multi_math = any(len(c.get("mblocks") or []) >= 2 for fn in cl for c in FG.all_comps(files[fn]["comps"]))
     levels = import_levels(files)
     return {"units_name_clash": clash, "suffixed_units_names": suffixed, "base_units_clash": base_clash,
             "ids_on_imported": ids_on_imported, "import_below_placeholder": below_placeholder, "import_levels": levels,
+            "several_math_blocks": multi_math,
             "files": len(cl)}
 
 
@@ -689,7 +691,7 @@ def run(ctx):
         hist["import_levels"][facts.get("import_levels")] = hist["import_levels"].get(facts.get("import_levels"), 0) + 1
         oc = cpp_outcome(r["cpp"])
         hist["outcome"][oc] = hist["outcome"].get(oc, 0) + 1
-        for f in ("units_name_clash", "suffixed_units_names", "base_units_clash", "ids_on_imported", "import_below_placeholder"):
+        for f in ("units_name_clash", "suffixed_units_names", "base_units_clash", "ids_on_imported", "import_below_placeholder", "several_math_blocks"):
             if facts.get(f):
                 hist["features"][f] = hist["features"].get(f, 0) + 1
         if res:
